@@ -247,12 +247,12 @@ func (c *Ctx) ruleT6() {
 				if methodName(call) == "CanAppend" && c.isMethodOn(call, "CanAppend", ifaceLogAC) {
 					nCan++
 				}
-				if h := call.Common().StaticCallee(); h != nil && h.Blocks != nil && h.Pkg == f.Pkg {
-					eachCall(h, func(hc ssa.CallInstruction) {
-						if methodName(hc) == "CanAppend" && c.isMethodOn(hc, "CanAppend", ifaceLogAC) {
-							nCan++
-						}
-					})
+				if h := call.Common().StaticCallee(); h != nil && h.Blocks != nil && h.Pkg == f.Pkg && h != f {
+					if c.reachesStatic(h, func(hc ssa.CallInstruction) bool {
+						return methodName(hc) == "CanAppend" && c.isMethodOn(hc, "CanAppend", ifaceLogAC)
+					}, 0) {
+						nCan++
+					}
 				}
 				if methodName(call) == "Load" && recvOf(call) != nil && strings.Contains(typeStr(recvOf(call).Type()), "eplicator") {
 					nLoad++
@@ -1340,6 +1340,29 @@ func (c *Ctx) readerOrigins(v ssa.Value, depth int, seen map[ssa.Value]bool, bad
 		if methodName(x) == "Get" && x.Call.IsInvoke() && strings.HasSuffix(typeStr(x.Call.Value.Type()), "UnixfsAPI") {
 			return
 		}
+		// a repo helper that opens the file and hands it back
+		if h := x.Call.StaticCallee(); h != nil && h.Blocks != nil && h.Pkg != nil && inRepo(h.Pkg.Pkg) {
+			eachInstr(h, func(in ssa.Instruction) {
+				r, ok := in.(*ssa.Return)
+				if !ok || isFailureReturn(r) {
+					return
+				}
+				for _, rv := range r.Results {
+					if isErrorType(rv.Type()) {
+						continue
+					}
+					if _, isIface := rv.Type().Underlying().(*types.Interface); !isIface {
+						continue
+					}
+					for _, y := range resolveSpill(rv) {
+						if !isNilConst(y) {
+							c.readerOrigins(y, depth+1, seen, bad)
+						}
+					}
+				}
+			})
+			return
+		}
 		*bad = append(*bad, "the reader is the result of "+calleeFull(x))
 	case *ssa.Parameter:
 		f := x.Parent()
@@ -2059,10 +2082,10 @@ func (c *Ctx) ruleR3() {
 		if c.isTestFile(f.Pos()) {
 			continue
 		}
-		// the helpers themselves are not callers
-		if c.mustDo(kMax, f, 0) && f.Parent() == nil && !hasCallTo(f, func(call ssa.CallInstruction) bool {
+		// the helpers themselves (and the function literals they hand to a lock helper) are not callers
+		if t := topLevel(f); c.mustDo(kMax, t, 0) && !c.reachesStatic(t, func(call ssa.CallInstruction) bool {
 			return c.isLogCall(call, "Join") || c.isLogCall(call, "Append")
-		}) {
+		}, 0) {
 			continue
 		}
 		k := 0
